@@ -28,6 +28,7 @@ StrSym == [
   S_ab_sp |-> <<97, 32, 98, 32>>,                                      \* "a b "
   S_a_b   |-> <<97, 32, 98>>,                                          \* "a b"
   S_anb   |-> <<97, 10, 98>>,                                          \* "a\nb"
+  S_annb  |-> <<97, 10, 10, 98>>,                                      \* "a\n\nb" (the lines a, "", b of S_crlf joined)
   S_b     |-> <<98>>,
   \* typed form values, urls, report reasons, header names
   S_true  |-> <<116, 114, 117, 101>>, S_false |-> <<102, 97, 108, 115, 101>>,
